@@ -87,6 +87,14 @@ pub proof fn lemma_concat_split(a: Bytes, x: Bytes, b: Bytes, y: Bytes)
 // ======================================================================== C04: nonces never repeat
 pub open spec fn pow256(n: nat) -> nat decreases n { if n == 0 { 1 } else { 256 * pow256((n - 1) as nat) } }
 
+/// I2OSP(c, 1) is the single byte c (used by the NIST DeriveKeyPair spec)
+/*@C03*/ pub proof fn lemma_i2osp_one(c: nat)
+    requires c < 256,
+    ensures i2osp(c, 1) == seq![c as u8],
+{
+    reveal_with_fuel(i2osp, 3);
+    assert(i2osp(c, 1) =~= seq![c as u8]);
+}
 pub proof fn lemma_i2osp_len(n: nat, len: nat)
     ensures i2osp(n, len).len() == len
     decreases len
